@@ -8,4 +8,9 @@ CONSTRAINT Bound
 VIEW View
 INVARIANT TypeOK
 INVARIANT DrawReadsBack
+INVARIANT Unambiguous
+INVARIANT IsPicture
+INVARIANT TrimIsPrefix
+INVARIANT Anchored
+INVARIANT CartCentred
 CHECK_DEADLOCK FALSE
